@@ -33,6 +33,10 @@ func TestC06(t *testing.T) {
 			continue
 		}
 		r.Progress(id, "")
+		if vf.Hash("c06-family", id)%16 == 0 {
+			c06Overflow(r, t, id, r.Rand(id))
+			continue
+		}
 		c06Scenario(r, t, id, r.Rand(id))
 	}
 }
@@ -277,4 +281,80 @@ func c06Scenario(r *vf.Run, t *testing.T, id string, rng *rand.Rand) {
 	if r.WantSample() {
 		r.Sample(map[string]any{"case": id, "streams": k, "initial_window": w0, "sizes": sizes, "modes": modes, "action_kinds": ks})
 	}
+}
+
+// c06Overflow: a response is part way out, held up by the connection window, when the peer pushes its stream window past
+// 2^31-1 (a flow-control error of that stream, RFC 7540 6.9.1). The server resets the stream - and from then on sends
+// nothing on it, however much window arrives - while the other responses of the connection go on within their windows.
+func c06Overflow(r *vf.Run, t *testing.T, id string, rng *rand.Rand) {
+	size := 100000 + rng.Intn(100000)
+	connFirst := int64(1000 + rng.Intn(30000))
+	otherSize := 1 + rng.Intn(60000)
+	replay := map[string]any{"family": "stream-window-overflow-mid-response", "response": size, "connection_credit_before": connFirst, "other_response": otherSize}
+	failed := false
+	fail := func(rule, detail string) {
+		if !failed {
+			r.Fail("C06."+rule, id, detail, nil, replay)
+		}
+		failed = true
+	}
+	res := rt.RunBubble(t, id, 60*time.Second, func() {
+		e := rt.NewServerEnv(id, rt.ServerOpts{})
+		tagA, tagB := id+".a", id+".b"
+		e.H.SetPlan(tagA, &rt.RespPlan{Status: 200, Body: make([]byte, size), Stream: rng.Intn(3)})
+		e.H.SetPlan(tagB, &rt.RespPlan{Status: 200, Body: make([]byte, otherSize)})
+		e.P.Write(simpleGet(e.P, 1, tagA))
+		rt.Wait() // 65535 bytes out: both windows used up
+		e.P.Write(rt.WindowUpdate(0, uint32(connFirst)))
+		rt.Wait()
+		e.P.Write(rt.WindowUpdate(1, 1<<31-1)) // the stream window is at its maximum now; connFirst more bytes go out
+		rt.Wait()
+		// connFirst bytes have been taken from the stream window since: anything above that goes past the maximum
+		e.P.Write(append(rt.WindowUpdate(1, uint32(connFirst)+uint32(1+rng.Intn(5000))), simpleGet(e.P, 3, tagB)...))
+		rt.Wait()
+		e.P.Write(append(rt.WindowUpdate(0, 1<<20), rt.WindowUpdate(3, 1<<20)...))
+		rt.Wait()
+		fs := e.P.Frames()
+		var sentA int64
+		resetAt, goaway := -1, false
+		for i, f := range fs {
+			switch {
+			case f.Type == wire.TGoAway:
+				goaway = true
+				if f.Code != 3 {
+					fail("wrong-error-code", fmt.Sprintf("stream window pushed past 2^31-1: the server sent %s", f))
+				}
+			case f.Type == wire.TRstStream && f.Stream == 1 && resetAt < 0:
+				resetAt = i
+				if f.Code != 3 {
+					fail("wrong-error-code", fmt.Sprintf("stream window pushed past 2^31-1: the server sent %s", f))
+				}
+			case f.Stream == 1 && (f.Type == wire.TData || f.Type == wire.THeaders) && resetAt >= 0:
+				fail("frames-after-own-reset", fmt.Sprintf("the server reset stream 1 (frame #%d, FLOW_CONTROL_ERROR) and then sent %s on it (frame #%d) when more window arrived", resetAt, f, i))
+			case f.Stream == 1 && f.Type == wire.TData:
+				sentA += int64(f.Len)
+			}
+		}
+		_ = sentA
+		if resetAt < 0 && !goaway {
+			fail("overflow-ignored", fmt.Sprintf("the peer pushed the window of stream 1 past 2^31-1 and the server sent neither RST_STREAM nor GOAWAY; frames:%s", frameSummary(fs[3:])))
+		}
+		if !goaway && !failed {
+			var gotB int64
+			endB := false
+			for _, f := range rt.FramesFor(fs, 3) {
+				if f.Type == wire.TData {
+					gotB += int64(f.Len)
+				}
+				endB = endB || f.EndStream
+			}
+			if gotB != int64(otherSize) || !endB {
+				fail("not-completed", fmt.Sprintf("stream 3 (opened as stream 1 was being reset): %d of %d bytes arrived, END_STREAM %v, although its windows are open", gotB, otherSize, endB))
+			}
+		}
+		r.Inc("stream_window_overflows_mid_response", 1)
+		e.Finish()
+	})
+	c01Outcome(r, id, res, nil, replay, "C06")
+	r.Eval(vf.Hash("overflow", size/20000, connFirst/5000), true)
 }
